@@ -12,15 +12,10 @@ import (
 // C05/C06: heapq.Queue histories; C05.sort: heapq.Sort.
 // Elements are distinct naturals ordered by v/10 (ties between distinct elements).
 
-func c05cmp(a, b int) int {
-	switch {
-	case a/10 < b/10:
-		return -1
-	case a/10 > b/10:
-		return 1
-	}
-	return 0
-}
+// c05cmp orders by v/10 and deliberately returns magnitudes other than 1 (any sign-correct int is a
+// legal comparison result; code testing `== -1` instead of `< 0` must be caught).
+func c05cmp(a, b int) int { return 2 * (a/10 - b/10) }
+
 func c05rcmp(a, b int) int { return c05cmp(b, a) }
 
 type c05 struct {
